@@ -62,8 +62,9 @@ claim("C14", "call-graph reachability (class-hierarchy resolution) + panic-site 
       "code still is." + DECIDES + " Inventory rows of class U are an inherited baseline that is not individually triaged: for them the "
       "claim is only that the set does not grow. (c) Termination: each of the loops in workspace code reachable from those entry points is driven by an "
       "iterator / worklist, counts a growing length or a stepped index, or terminates under a recorded precondition that every reachable caller "
-      "establishes by rejecting the other values before the call. Termination of recursion, of loops inside external crates and memory bounds beyond (a) are not decided. Two genuine panics found by (b) in the "
-      "ap-change computation were repaired in /repo (fix: commits 938a2fe, aa8782c); the i64 overflow of the legacy equation solver is a recorded known finding.",
+      "establishes by rejecting the other values before the call; a worklist loop marks (visited set / status slot) what it expands before pushing; "
+      "the call sites of validation routines on the path do not disappear. Termination of recursion, of loops inside external crates and memory bounds beyond (a) are not decided. Two genuine panics found by (b) in the "
+      "ap-change computation and a non-terminating worklist in the circuit type specialisation were repaired in /repo (fix: commits 938a2fe, aa8782c, 17c99da); the i64 overflow of the legacy equation solver is a recorded known finding.",
       "trusted: rustc MIR, fact dumper; external crates are leaves modelled by the list of panicking entry points in rules/c14.py; class-U inventory rows carry no safety claim",
       "DESIGN.md section 4, C14")
 claim("C13", "Eq-completeness over MIR field reads + call-graph reachability from tracked functions + who-may-construct / who-may-call rules",
